@@ -20,7 +20,9 @@ from props.c01 import tag, impl_report
 ID = 'C03'
 LEAN_MODULE = 'CC.Properties.C03'
 LEVEL = 'proof'
-THEOREMS = ['CC.C03_perm', 'CC.C03_rename', 'CC.C03_reverse', 'CC.C03_reref', 'CC.C01_unique', 'CC.C01_sound']
+THEOREMS = ['CC.C03_perm', 'CC.C03_rename', 'CC.C03_reverse', 'CC.C03_reref',
+            'CC.C03_reported_perm', 'CC.C03_reported_rename', 'CC.C03_reported_reverse', 'CC.C03_reported_reref',
+            'CC.C01_unique', 'CC.C01_sound', 'CC.C01_reported_is_the_solution']
 LEAN_MODULE_EXTRA = ['CC.Properties.C01']
 OPEN_STATEMENTS = ['C03_port / C03_statespace / C03_transient as theorems (need the C06/C10/C12 models); decided per instance by the metamorphic oracle']
 ASSUMPTIONS = ['invariance theorems are about the Spec; equality of reported values uses C01_sound + C01_unique (well-posed networks)',
